@@ -788,4 +788,405 @@ theorem mapM_option_some {α β γ : Type} (f : α → Option β) (G : β → γ
     refine ⟨b :: bs, ?_, by simp [hG, hGs]⟩
     rw [List.mapM_cons, hb, hbs]; rfl
 
+/-! ### the specification decoder rebuilds the tree -/
+
+/-- the token table of the decoder -/
+def toksT (o : OutOpts) (t : Tree) : List (Nat × ExpNode) := (tokPaths t).map fun p => (numOf t p, entry o t p)
+/-- the constituent table of the decoder -/
+def consT (o : OutOpts) (t : Tree) : List (Nat × ExpNode) := (consPaths t).map fun p => (numOf t p, entry o t p)
+
+theorem buildExp_tok (toks cons : List (Nat × ExpNode)) (fuel num : Nat) (h1 : num < 500) (h0 : num ≠ 0) :
+    buildExp toks cons (fuel + 1) num = (toks.find? (·.1 == num)).map fun x =>
+      leaf num { label := x.2.label, word := some x.2.word, lemma := some x.2.lemma, morph := some x.2.morph, edge := some x.2.edge } := by
+  rw [buildExp]
+  have : (decide (num < 500) && num != 0) = true := by simp [h1, h0]
+  rw [if_pos this]
+
+theorem buildExp_cons (toks cons : List (Nat × ExpNode)) (fuel num : Nat) (h1 : 500 ≤ num) (ds : List Tree)
+    (h : ((toks.filter (·.2.parent == num)).map (·.1) ++ (cons.filter (·.2.parent == num)).map (·.1)).mapM
+      (buildExp toks cons fuel) = some ds) :
+    buildExp toks cons (fuel + 1) num = (cons.find? (·.1 == num)).map fun x =>
+      node { label := x.2.label, lemma := some x.2.lemma, morph := some x.2.morph, edge := some x.2.edge } ds := by
+  rw [buildExp]
+  have : (decide (num < 500) && num != 0) = false := by simp; omega
+  rw [if_neg (by simp [this])]
+  simp only [h]
+  have h0 : (num == 0) = false := by simp; omega
+  simp only [h0, Bool.false_eq_true, if_false]
+
+theorem buildExp_root (toks cons : List (Nat × ExpNode)) (fuel : Nat) (ds : List Tree)
+    (h : ((toks.filter (·.2.parent == 0)).map (·.1) ++ (cons.filter (·.2.parent == 0)).map (·.1)).mapM
+      (buildExp toks cons fuel) = some ds) :
+    buildExp toks cons (fuel + 1) 0 = some (node { label := DEFAULT_ROOT, edge := some DEFAULT_EDGE } ds) := by
+  rw [buildExp]
+  simp only [h]
+  rfl
+
+theorem numOf_tok_bounds (t : Tree) (p : Path) (hwf : WF t = true) (hp : p ∈ tokPaths t) :
+    1 ≤ numOf t p ∧ numOf t p ≤ t.leafNums.length := by
+  have : numOf t p ∈ (tokPaths t).map (numOf t) := List.mem_map_of_mem hp
+  rw [tokPaths_nums t hwf, List.mem_range'_1] at this
+  omega
+
+theorem numOf_tok_inj (t : Tree) (hwf : WF t = true) (p q : Path) (hp : p ∈ tokPaths t) (hq : q ∈ tokPaths t)
+    (h : numOf t q = numOf t p) : q = p := by
+  have hnd : ((tokPaths t).map (numOf t)).Nodup := by rw [tokPaths_nums t hwf]; exact List.nodup_range'
+  rw [List.Nodup, List.pairwise_map] at hnd
+  apply Classical.byContradiction
+  intro hne
+  obtain ⟨i, hi, rfl⟩ := List.getElem_of_mem hp
+  obtain ⟨j, hj, rfl⟩ := List.getElem_of_mem hq
+  have hij : i ≠ j := fun e => by subst e; exact hne rfl
+  rcases Nat.lt_or_gt_of_ne hij with hlt | hlt
+  · exact List.pairwise_iff_getElem.1 hnd i j hi hj hlt h.symm
+  · exact List.pairwise_iff_getElem.1 hnd j i hj hi hlt h
+
+theorem find_tok (o : OutOpts) (t : Tree) (hwf : WF t = true) (p : Path) (hp : p ∈ tokPaths t) :
+    (toksT o t).find? (·.1 == numOf t p) = some (numOf t p, entry o t p) :=
+  find?_map_key (numOf t) (entry o t) _ p hp (fun q hq h => numOf_tok_inj t hwf p q hp hq h)
+
+theorem find_cons (o : OutOpts) (t : Tree) (hwf : WF t = true) (p : Path) (hp : p ∈ consPaths t) :
+    (consT o t).find? (·.1 == numOf t p) = some (numOf t p, entry o t p) :=
+  find?_map_key (numOf t) (entry o t) _ p hp (fun q hq h =>
+    numOf_inj t q p (WF_root t hwf).1 (isCons_of_mem_consPaths t q hq) (isCons_of_mem_consPaths t p hp) h)
+
+/-- the parent column selects the lines of the children -/
+theorem parent_filter (o : OutOpts) (t : Tree) (hwf : WF t = true) (p : Path) (hc : isCons t p = true) (L : List Path)
+    (hL : ∀ q ∈ L, q ∈ paths t ∧ q ≠ []) :
+    ((L.map fun q => (numOf t q, entry o t q)).filter (·.2.parent == numOf t p)).map (·.1) =
+      (L.filter (fun q => q.dropLast == p)).map (numOf t) := by
+  rw [List.filter_map, List.map_map]
+  have : L.filter ((fun x : Nat × ExpNode => x.2.parent == numOf t p) ∘ fun q => (numOf t q, entry o t q)) =
+      L.filter (fun q => q.dropLast == p) := by
+    apply List.filter_congr
+    intro q hq
+    obtain ⟨hq1, hq2⟩ := hL q hq
+    have hcq := isCons_dropLast t q hq1 hq2
+    show ((entry o t q).parent == numOf t p) = (q.dropLast == p)
+    have e : (entry o t q).parent = numOf t q.dropLast := rfl
+    rw [e]
+    by_cases h : q.dropLast = p
+    · rw [h, beq_self_eq_true, beq_self_eq_true]
+    · have : numOf t q.dropLast ≠ numOf t p := fun e => h (numOf_inj t _ _ (WF_root t hwf).1 hcq hc e)
+      rw [beq_eq_false_iff_ne.2 this, beq_eq_false_iff_ne.2 h]
+  rw [this]
+  apply List.map_congr_left
+  intro q _
+  rfl
+
+theorem kidsNums_eq (o : OutOpts) (t : Tree) (hwf : WF t = true) (p : Path) (hc : isCons t p = true) :
+    ((toksT o t).filter (·.2.parent == numOf t p)).map (·.1) ++ ((consT o t).filter (·.2.parent == numOf t p)).map (·.1) =
+      (kidPaths t p).map (numOf t) := by
+  unfold toksT consT kidPaths
+  rw [parent_filter o t hwf p hc _ (fun q hq => (mem_tok_cons t q).1 (List.mem_append_left _ hq)),
+    parent_filter o t hwf p hc _ (fun q hq => (mem_tok_cons t q).1 (List.mem_append_right _ hq)),
+    List.filter_append, List.map_append]
+
+theorem carryExport_leaf_eq (o : OutOpts) (t : Tree) (p : Path) (n : Nat) (f : Fields) (hs : subAt t p = leaf n f)
+    (hw : f.word.isSome = true) :
+    leaf n { label := (entry o t p).label, word := some (entry o t p).word, lemma := some (entry o t p).lemma, morph := some (entry o t p).morph, edge := some (entry o t p).edge } =
+      carryExport o (leaf n f) := by
+  obtain ⟨w, hw⟩ := Option.isSome_iff_exists.1 hw
+  simp only [entry, wordOf, hs, carryExport, kids, fields, List.isEmpty_nil, if_true, hw, Option.getD_some]
+  cases o.exportFour <;> rfl
+
+theorem carryExport_node_eq (o : OutOpts) (t : Tree) (p : Path) (f : Fields) (ks : List Tree) (hs : subAt t p = node f ks)
+    (ds : List Tree) :
+    node { label := (entry o t p).label, lemma := some (entry o t p).lemma, morph := some (entry o t p).morph, edge := some (entry o t p).edge } ds =
+      node (carryExport o (node f ks)).fields ds := by
+  simp only [entry, hs, carryExport, fields]
+  cases o.exportFour <;> rfl
+
+theorem word_isSome_of_ok (o : OutOpts) (t : Tree) (p : Path) (n : Nat) (f : Fields) (hok : ExportOK o t = true)
+    (hp : p ∈ paths t) (hs : subAt t p = leaf n f) : f.word.isSome = true := by
+  have := (ExportOK_sub o t _ hok (mem_subtrees_subAt t p hp)).2.2.2.2 (by rw [hs]; rfl)
+  rw [hs] at this
+  have h1 := ((fieldOK_iff _).1 this.1).1
+  cases hw : f.word with
+  | none => simp [fields, hw] at h1
+  | some w => rfl
+
+/-- the children of a constituent are rebuilt (given that every lower node is) -/
+theorem buildExp_kids (o : OutOpts) (t : Tree) (hwf : WF t = true) (fuel : Nat) (p : Path) (f : Fields) (ks : List Tree)
+    (hp : p ∈ paths t) (hs : subAt t p = node f ks)
+    (ih : ∀ q ∈ paths t, q ≠ [] → height (subAt t q) < fuel →
+      ∃ d, buildExp (toksT o t) (consT o t) fuel (numOf t q) = some d ∧ sortKids d = sortKids (carryExport o (subAt t q)))
+    (hh : height (subAt t p) ≤ fuel) :
+    ∃ ds, (((toksT o t).filter (·.2.parent == numOf t p)).map (·.1) ++ ((consT o t).filter (·.2.parent == numOf t p)).map (·.1)).mapM
+        (buildExp (toksT o t) (consT o t) fuel) = some ds ∧
+      sortBy leftmost (ds.map sortKids) = sortBy leftmost ((carryExportL o ks).map sortKids) := by
+  have hne := WF_noEmpty t hwf
+  have hc : isCons t p = true := by
+    rw [isCons_eq t p hp, kids_isEmpty_eq_isLeaf _ (noEmpty_subAt t p hne hp), hs]; rfl
+  rw [kidsNums_eq o t hwf p hc, List.mapM_map]
+  obtain ⟨ds, hds, hmap⟩ := mapM_option_some (buildExp (toksT o t) (consT o t) fuel ∘ numOf t) sortKids
+    (fun q => sortKids (carryExport o (subAt t q))) (kidPaths t p) (by
+      intro q hq
+      obtain ⟨hq1, hq2, hq3⟩ := height_kid_lt t p f ks hp hs q hq
+      exact ih q hq1 hq2 (by omega))
+  refine ⟨ds, hds, ?_⟩
+  rw [hmap, carryExportL_eq, List.map_map]
+  exact sortBy_kids_eq t p f ks hp hs _ (kidPaths_perm t p f ks hp hs) (sortKids ∘ carryExport o)
+    (fun k => leftmost_sortKids_carryExport o k) (kids_leftmost_nodup t p f ks hwf hp hs)
+
+/-- every non-root node is rebuilt from its number -/
+theorem buildExp_sub (o : OutOpts) (t : Tree) (hwf : WF t = true) (hok : ExportOK o t = true) (hN : t.leafNums.length < 500) :
+    ∀ fuel, ∀ q ∈ paths t, q ≠ [] → height (subAt t q) < fuel →
+      ∃ d, buildExp (toksT o t) (consT o t) fuel (numOf t q) = some d ∧ sortKids d = sortKids (carryExport o (subAt t q)) := by
+  have hne := WF_noEmpty t hwf
+  intro fuel
+  induction fuel with
+  | zero => intro q _ _ h; omega
+  | succ fuel ih =>
+    intro q hq hq0 hh
+    cases hs : subAt t q with
+    | leaf n f =>
+      have hqt : q ∈ tokPaths t := (mem_tokPaths t q).2 ⟨hq, hq0, by rw [hs]; rfl⟩
+      have hb := numOf_tok_bounds t q hwf hqt
+      rw [buildExp_tok _ _ _ _ (by omega) (by omega), find_tok o t hwf q hqt]
+      refine ⟨_, rfl, ?_⟩
+      dsimp only
+      rw [numOf_leaf t q n f hq hs, carryExport_leaf_eq o t q n f hs (word_isSome_of_ok o t q n f hok hq hs)]
+    | node f ks =>
+      have hk : (subAt t q).kids.isEmpty = false := by
+        have := kids_isEmpty_eq_isLeaf _ (noEmpty_subAt t q hne hq)
+        rw [this, hs]; rfl
+      have hqc : q ∈ consPaths t := (mem_consPaths t q).2 ⟨hq, hq0, hk⟩
+      have hb := numOf_cons_bounds o t q hwf hok hqc
+      obtain ⟨ds, hds, hsort⟩ := buildExp_kids o t hwf fuel q f ks hq hs ih (by omega)
+      rw [buildExp_cons _ _ _ _ hb.1 ds hds, find_cons o t hwf q hqc]
+      refine ⟨_, rfl, ?_⟩
+      dsimp only
+      rw [carryExport_node_eq o t q f ks hs ds, sortKids_node, hsort, carryExport, sortKids_node]
+      rfl
+
+/-! ### the whole sentence through the specification decoder -/
+
+theorem bos4_eq : "#BOS".toList = ['#','B','O','S'] := rfl
+theorem eos4_eq : "#EOS".toList = ['#','E','O','S'] := rfl
+
+theorem splitWs_bos (sid : Nat) : splitWs ("#BOS ".toList ++ natToStr sid) = ["#BOS".toList, natToStr sid] := by
+  rw [bos_eq, bos4_eq]
+  have : ['#','B','O','S',' '] ++ natToStr sid = ['#','B','O','S'] ++ (' ' :: natToStr sid) := rfl
+  rw [this, splitWs_word_sep _ _ ' ' (by decide) ⟨by simp, by decide⟩, splitWs_word _ (OKw_natToStr sid)]
+
+theorem splitWs_eos (sid : Nat) : splitWs ("#EOS ".toList ++ natToStr sid) = ["#EOS".toList, natToStr sid] := by
+  rw [eos_eq, eos4_eq]
+  have : ['#','E','O','S',' '] ++ natToStr sid = ['#','E','O','S'] ++ (' ' :: natToStr sid) := rfl
+  rw [this, splitWs_word_sep _ _ ' ' (by decide) ⟨by simp, by decide⟩, splitWs_word _ (OKw_natToStr sid)]
+
+/-- the decoder after the frame and the lines have been read -/
+def decBody (sid : Nat) (body : List ExpNode) : Option ExpSentence :=
+  let isCons := fun (e : ExpNode) => (consNumber e.word).isSome
+  let toks := (body.filter (fun e => !isCons e)).zipIdx.map fun (e, i) => (i + 1, e)
+  let cons := (body.filter isCons).filterMap fun e => (consNumber e.word).map fun n => (n, e)
+  (buildExp toks cons (body.length + 2) 0).map fun tree =>
+    { sid := sid, tree := tree,
+      tokensFirst := (body.dropWhile (fun e => !isCons e)).all isCons,
+      numbersFrom500 := cons.map (·.1) == List.range' 500 cons.length,
+      parentsResolve := body.all (fun e => e.parent == 0 || (cons.any (·.1 == e.parent))),
+      childBelowParent := cons.all (fun (n, e) => e.parent == 0 || n < e.parent) }
+
+theorem decExport_frame (v4 : Bool) (sid : Nat) (mid : List Str) (body : List ExpNode)
+    (h : mid.mapM (decExpLine v4) = some body) :
+    decExport v4 (["#BOS ".toList ++ natToStr sid] ++ mid ++ ["#EOS ".toList ++ natToStr sid]) = decBody sid body := by
+  unfold decExport decBody
+  have h1 : (["#BOS ".toList ++ natToStr sid] ++ mid ++ ["#EOS ".toList ++ natToStr sid]).head? = some ("#BOS ".toList ++ natToStr sid) := by
+    simp
+  have h2 : (["#BOS ".toList ++ natToStr sid] ++ mid ++ ["#EOS ".toList ++ natToStr sid]).getLast? = some ("#EOS ".toList ++ natToStr sid) :=
+    List.getLast?_concat
+  have h3 : ((["#BOS ".toList ++ natToStr sid] ++ mid ++ ["#EOS ".toList ++ natToStr sid]).drop 1).dropLast = mid := by
+    simp
+  rw [h1, h2, h3, h]
+  simp only [Option.bind_eq_bind, Option.bind_some, splitWs_bos, splitWs_eos, beq_self_eq_true, if_true, strToNat_natToStr,
+    bne_self_eq_false, Bool.false_eq_true, if_false]
+  cases buildExp _ _ (body.length + 2) 0 <;> rfl
+
+
+theorem filter_append_left' {α : Type} (p : α → Bool) (A B : List α) (hA : ∀ a ∈ A, p a = true) (hB : ∀ b ∈ B, p b = false) :
+    (A ++ B).filter p = A := by
+  rw [List.filter_append, List.filter_eq_self.2 hA, List.filter_eq_nil_iff.2 (fun b hb => by simp [hB b hb]), List.append_nil]
+
+theorem filter_append_right' {α : Type} (p : α → Bool) (A B : List α) (hA : ∀ a ∈ A, p a = false) (hB : ∀ b ∈ B, p b = true) :
+    (A ++ B).filter p = B := by
+  rw [List.filter_append, List.filter_eq_self.2 hB, List.filter_eq_nil_iff.2 (fun b hb => by simp [hA b hb]), List.nil_append]
+
+theorem dropWhile_append_all {α : Type} (p : α → Bool) : ∀ (A B : List α), (∀ a ∈ A, p a = true) →
+    (A ++ B).dropWhile p = B.dropWhile p
+  | [], _, _ => rfl
+  | a :: A, B, h => by
+    rw [List.cons_append, List.dropWhile_cons, if_pos (h a (by simp))]
+    exact dropWhile_append_all p A B (fun x hx => h x (by simp [hx]))
+
+theorem zipIdx_map_key {α β : Type} (key : α → Nat) (g : α → β) : ∀ (l : List α) (k : Nat),
+    l.map key = List.range' (k + 1) l.length →
+    ((l.map g).zipIdx k).map (fun (x : β × Nat) => (x.2 + 1, x.1)) = l.map fun a => (key a, g a)
+  | [], _, _ => rfl
+  | a :: l, k, h => by
+    simp only [List.map_cons, List.length_cons, List.range'_succ, List.cons.injEq] at h
+    simp only [List.map_cons, List.zipIdx_cons, h.1]
+    rw [zipIdx_map_key key g l (k + 1) h.2]
+
+theorem isPrefix_append (p r : Path) : isPrefix p (p ++ r) = true := by
+  induction p with
+  | nil => rfl
+  | cons a p ih => simp [isPrefix, ih]
+
+theorem properPrefix_dropLast (q : Path) (h : q ≠ []) : properPrefix q.dropLast q = true := by
+  rcases eq_nil_or_snoc q with rfl | ⟨p, i, rfl⟩
+  · exact absurd rfl h
+  · simp [properPrefix, isPrefix_append]
+
+theorem length_le_filter_ne_succ : ∀ (l : List Path), l.Nodup → l.length ≤ (l.filter (· ≠ [])).length + 1
+  | [], _ => by simp
+  | x :: l, h => by
+    obtain ⟨h1, h2⟩ := List.nodup_cons.1 h
+    by_cases hx : x = []
+    · subst hx
+      have : l.filter (· ≠ []) = l := List.filter_eq_self.2 (fun a ha => by
+        simp only [ne_eq, decide_eq_true_eq]; intro e; subst e; exact h1 ha)
+      rw [List.filter_cons_of_neg (by simp), this]
+      simp
+    · have := length_le_filter_ne_succ l h2
+      rw [List.filter_cons_of_pos (by simpa using hx)]
+      simp only [List.length_cons]; omega
+
+/-- the lines of the body, decoded -/
+def bodyOf (o : OutOpts) (t : Tree) : List ExpNode := (tokPaths t).map (entry o t) ++ (consPaths t).map (entry o t)
+
+theorem height_le_body (o : OutOpts) (t : Tree) : height t ≤ (bodyOf o t).length + 1 := by
+  have h1 := height_le_size t
+  have h2 := length_paths t
+  have h4 := (tok_cons_perm t).length_eq
+  have h3 : (paths t).length ≤ (tokPaths t ++ consPaths t).length + 1 := by
+    rw [h4]; exact length_le_filter_ne_succ _ (paths_nodup t)
+  rw [List.length_append] at h3
+  unfold bodyOf
+  rw [List.length_append, List.length_map, List.length_map]
+  omega
+
+theorem body_toks (o : OutOpts) (t : Tree) (hwf : WF t = true) (hok : ExportOK o t = true) :
+    ((bodyOf o t).filter (fun e => !(consNumber e.word).isSome)).zipIdx.map (fun (e, i) => (i + 1, e)) = toksT o t := by
+  have hne := WF_noEmpty t hwf
+  unfold bodyOf
+  rw [filter_append_left']
+  · exact zipIdx_map_key (numOf t) (entry o t) (tokPaths t) 0 (by
+      rw [tokPaths_nums t hwf, tokPaths_length t hwf])
+  · intro e he
+    obtain ⟨p, hp, rfl⟩ := List.mem_map.1 he
+    simp [consNumber_tok o t p hne hok hp]
+  · intro e he
+    obtain ⟨p, hp, rfl⟩ := List.mem_map.1 he
+    simp [consNumber_cons o t p hwf hok hp]
+
+theorem body_cons (o : OutOpts) (t : Tree) (hwf : WF t = true) (hok : ExportOK o t = true) :
+    ((bodyOf o t).filter (fun e => (consNumber e.word).isSome)).filterMap (fun e => (consNumber e.word).map fun n => (n, e)) =
+      consT o t := by
+  have hne := WF_noEmpty t hwf
+  unfold bodyOf
+  rw [filter_append_right']
+  · unfold consT
+    apply filterMap_map_eq_map
+    intro p hp
+    simp [consNumber_cons o t p hwf hok hp]
+  · intro e he
+    obtain ⟨p, hp, rfl⟩ := List.mem_map.1 he
+    simp [consNumber_tok o t p hne hok hp]
+  · intro e he
+    obtain ⟨p, hp, rfl⟩ := List.mem_map.1 he
+    simp [consNumber_cons o t p hwf hok hp]
+
+theorem carryExportRoot_node (o : OutOpts) (f : Fields) (ks : List Tree) :
+    carryExportRoot o (node f ks) = node { label := DEFAULT_ROOT, edge := some DEFAULT_EDGE } (carryExportL o ks) := by
+  simp [carryExportRoot, carryExport]
+
+/-- the root is rebuilt -/
+theorem buildExp_rootTree (o : OutOpts) (t : Tree) (hwf : WF t = true) (hok : ExportOK o t = true) (hN : t.leafNums.length < 500)
+    (fuel : Nat) (hf : height t ≤ fuel) :
+    ∃ d, buildExp (toksT o t) (consT o t) (fuel + 1) 0 = some d ∧ sortKids d = sortKids (carryExportRoot o t) := by
+  have hroot := (WF_root t hwf).1
+  cases ht : t with
+  | leaf n f => rw [ht] at hwf; simp [WF, isLeaf] at hwf
+  | node f ks =>
+    rw [← ht]
+    have hs : subAt t [] = node f ks := by rw [subAt_nil, ht]
+    obtain ⟨ds, hds, hsort⟩ := buildExp_kids o t hwf fuel [] f ks (nil_mem_paths t) hs
+      (buildExp_sub o t hwf hok hN fuel) (by rw [subAt_nil]; exact hf)
+    rw [numOf_root t hroot] at hds
+    refine ⟨_, buildExp_root _ _ _ ds hds, ?_⟩
+    rw [ht, carryExportRoot_node, sortKids_node, sortKids_node, hsort]
+
+/-- the structural flags -/
+theorem body_tokensFirst (o : OutOpts) (t : Tree) (hwf : WF t = true) (hok : ExportOK o t = true) :
+    ((bodyOf o t).dropWhile (fun e => !(consNumber e.word).isSome)).all (fun e => (consNumber e.word).isSome) = true := by
+  have hne := WF_noEmpty t hwf
+  unfold bodyOf
+  rw [dropWhile_append_all _ _ _ (by
+    intro e he
+    obtain ⟨p, hp, rfl⟩ := List.mem_map.1 he
+    simp [consNumber_tok o t p hne hok hp])]
+  rw [List.all_eq_true]
+  intro e he
+  have := (List.dropWhile_sublist _).subset he
+  obtain ⟨p, hp, rfl⟩ := List.mem_map.1 this
+  simp [consNumber_cons o t p hwf hok hp]
+
+theorem consT_nums (o : OutOpts) (t : Tree) (hwf : WF t = true) :
+    ((consT o t).map (·.1) == List.range' 500 (consT o t).length) = true := by
+  rw [beq_iff_eq]
+  unfold consT
+  rw [List.map_map, List.length_map]
+  exact consPaths_nums t hwf
+
+theorem parent_resolves (o : OutOpts) (t : Tree) (hwf : WF t = true) (q : Path) (hq : q ∈ paths t) (hq0 : q ≠ []) :
+    ((entry o t q).parent == 0 || (consT o t).any (·.1 == (entry o t q).parent)) = true := by
+  have hc := isCons_dropLast t q hq hq0
+  have e : (entry o t q).parent = numOf t q.dropLast := rfl
+  rw [e]
+  by_cases h0 : q.dropLast = []
+  · rw [h0, numOf_root t (WF_root t hwf).1]; rfl
+  · have hm : q.dropLast ∈ consPaths t := by
+      have hp := mem_paths_of_isCons t _ hc
+      rw [isCons_eq t _ hp] at hc
+      exact (mem_consPaths t _).2 ⟨hp, h0, by simpa using hc⟩
+    rw [Bool.or_eq_true]; right
+    rw [List.any_eq_true]
+    exact ⟨(numOf t q.dropLast, entry o t q.dropLast), List.mem_map_of_mem hm, by simp⟩
+
+theorem body_parentsResolve (o : OutOpts) (t : Tree) (hwf : WF t = true) :
+    (bodyOf o t).all (fun e => e.parent == 0 || ((consT o t).any (·.1 == e.parent))) = true := by
+  rw [List.all_eq_true]
+  intro e he
+  unfold bodyOf at he
+  rw [← List.map_append] at he
+  obtain ⟨q, hq, rfl⟩ := List.mem_map.1 he
+  obtain ⟨h1, h2⟩ := (mem_tok_cons t q).1 hq
+  exact parent_resolves o t hwf q h1 h2
+
+theorem consT_childBelowParent (o : OutOpts) (t : Tree) (hwf : WF t = true) :
+    (consT o t).all (fun (n, e) => e.parent == 0 || n < e.parent) = true := by
+  rw [List.all_eq_true]
+  intro x hx
+  obtain ⟨q, hq, rfl⟩ := List.mem_map.1 hx
+  obtain ⟨h1, h2, _⟩ := (mem_consPaths t q).1 hq
+  have hc := isCons_dropLast t q h1 h2
+  show ((entry o t q).parent == 0 || decide (numOf t q < (entry o t q).parent)) = true
+  have e : (entry o t q).parent = numOf t q.dropLast := rfl
+  rw [e]
+  by_cases h0 : q.dropLast = []
+  · rw [h0, numOf_root t (WF_root t hwf).1]; rfl
+  · have := numOf_below t q.dropLast q hc (isCons_of_mem_consPaths t q hq) (properPrefix_dropLast q h2) h0
+    simp [this]
+
+/-- MAIN (decoder side): the decoded body gives the tree back and the structural flags hold -/
+theorem decBody_write (o : OutOpts) (sid : Nat) (t : Tree) (hwf : WF t = true) (hok : ExportOK o t = true)
+    (hN : t.leafNums.length < 500) :
+    ∃ s, decBody sid (bodyOf o t) = some s ∧ s.sid = sid ∧ sortKids s.tree = sortKids (carryExportRoot o t) ∧
+      s.tokensFirst = true ∧ s.numbersFrom500 = true ∧ s.parentsResolve = true ∧ s.childBelowParent = true := by
+  obtain ⟨d, hd, hsd⟩ := buildExp_rootTree o t hwf hok hN ((bodyOf o t).length + 1) (height_le_body o t)
+  unfold decBody
+  simp only [body_toks o t hwf hok, body_cons o t hwf hok, hd, Option.map_some]
+  exact ⟨_, rfl, rfl, hsd, body_tokensFirst o t hwf hok, consT_nums o t hwf, body_parentsResolve o t hwf,
+    consT_childBelowParent o t hwf⟩
+
 end TT.Lemmas.ExportRT
